@@ -12,7 +12,15 @@
 //       /proc/bus/input/devices, /sys/devices and /dev/input, then records what the
 //       real list_keyboards / list_input_devices / do_remapping_loop_all_devices /
 //       do_remapping_loop_multiple_devices (and, with --real-bin, the real binary)
-//       select.
+//       select.  PRIMARY observation of a selection run: which fabricated nodes of
+//       /dev/input the child process OPENS (inotify IN_OPEN on the directory; lines
+//       SAO/SDO/RAO/RDO/RUO) - the loop opens the selected nodes in order and stops
+//       at the first failure (a fabricated node is a plain file: the evdev ioctl
+//       fails), the auto mode opens every selected node.  SECONDARY: what the
+//       verbose log says (lines SA/SD/RA/RD/RU), used by the checker only where it
+//       has the expected shape and agrees with the opens.  A scenario with a line
+//       `OPT auto` also gets a run of `--auto-all-keyboards` of the real binary
+//       (never returns: killed once it sleeps after its first round, 3 s at most).
 //   listing-probe  ...   (child of listing-ns: one selection call, stderr captured by the parent)
 //   listing-replay --hex TEXT
 //       prints the real extractors' answers on one text and on its entries.
@@ -670,6 +678,7 @@ fn gen_scenario(rng: &mut Rng, lib: &[Ent], path: &str) {
 }
 
 struct Scenario {
+  opts: Vec<String>,
   text: Vec<u8>,
   sys: Vec<(String, String, String, String)>, // sysfs, kind, event dir, devname
   dev: Vec<(String, String, String)>,         // path, kind, target
@@ -679,7 +688,7 @@ struct Scenario {
 
 fn read_scenario(path: &str) -> Scenario {
   let s = std::fs::read_to_string(path).expect("read spec");
-  let mut sc = Scenario { text: vec![], sys: vec![], dev: vec![], args: vec![], excl: vec![] };
+  let mut sc = Scenario { opts: vec![], text: vec![], sys: vec![], dev: vec![], args: vec![], excl: vec![] };
   let st = |b: Vec<u8>| String::from_utf8(b).expect("utf8 in spec");
   for line in s.lines() {
     let t: Vec<&str> = line.split(' ').collect();
@@ -689,6 +698,7 @@ fn read_scenario(path: &str) -> Scenario {
       "DEV" => sc.dev.push((st(unhx(t[1])), t[2].to_string(), t.get(3).map(|x| st(unhx(x))).unwrap_or_default())),
       "ARG" => sc.args.push(st(unhx(t[1]))),
       "EXC" => sc.excl.push(st(unhx(t[1]))),
+      "OPT" => { if t.len() > 1 { sc.opts.push(t[1].to_string()); } },
       _ => {}
     }
   }
@@ -710,21 +720,145 @@ fn run_child(exe: &str, args: &[String]) -> (i32, String, String) {
   }
 }
 
+// ---- which nodes of the fabricated /dev/input get opened (inotify on the directory)
+struct OpenWatch { ino: inotify::Inotify }
+
+impl OpenWatch {
+  fn new(dir: &str) -> Option<OpenWatch> {
+    let ino = inotify::Inotify::init().ok()?;
+    ino.watches().add(dir, inotify::WatchMask::OPEN).ok()?;
+    Some(OpenWatch { ino })
+  }
+  // names (inside the watched directory) opened since the last call, in order
+  fn drain(&mut self) -> Vec<String> {
+    let mut names = vec![];
+    let mut buf = [0u8; 16384];
+    loop {
+      match self.ino.read_events(&mut buf) {
+        Ok(evs) => {
+          let mut any = false;
+          for e in evs {
+            any = true;
+            if e.mask.contains(inotify::EventMask::ISDIR) { continue; }
+            if let Some(n) = e.name { names.push(n.to_string_lossy().to_string()); }
+          }
+          if !any { break; }
+        },
+        Err(_) => break,
+      }
+    }
+    names
+  }
+}
+
+fn opens_field(o: &Option<Vec<String>>) -> String {
+  match o {
+    None => "-".to_string(),
+    Some(v) => { let mut s = format!("{}", v.len()); for n in v { s += &format!(" {}", hx(n.as_bytes())); } s }
+  }
+}
+
+// run a child to its end and report what it opened in the watched directory
+fn run_child_watched(exe: &str, args: &[String], w: &mut Option<OpenWatch>) -> (i32, String, String, Option<Vec<String>>) {
+  if let Some(w) = w.as_mut() { let _ = w.drain(); }
+  let (rc, so, se) = run_child(exe, args);
+  let o = w.as_mut().map(|w| w.drain());
+  (rc, so, se, o)
+}
+
+fn proc_state(pid: u32) -> char {
+  match std::fs::read_to_string(format!("/proc/{}/stat", pid)) {
+    Ok(s) => match s.rfind(')') { Some(i) => s[i + 1..].trim_start().chars().next().unwrap_or('?'), None => '?' },
+    Err(_) => '?',
+  }
+}
+
+// `remap --auto-all-keyboards` never returns: it does one round (list, open every selected device) and then
+// blocks reading its own inotify.  Wait until it sleeps and nothing was opened for 0.25 s (at once when the
+// kernel names the wait channel as inotify's), 3 s at most, then SIGKILL.  Returns (opens, stderr, seconds, exited by itself)
+fn run_auto_watched(exe: &str, args: &[String], errfile: &str, w: &mut Option<OpenWatch>) -> (Option<Vec<String>>, String, f64, bool) {
+  if w.is_none() { return (None, String::new(), 0.0, false); }
+  let ww = w.as_mut().unwrap();
+  let _ = ww.drain();
+  let ef = match std::fs::File::create(errfile) { Ok(f) => f, Err(_) => return (None, String::new(), 0.0, false) };
+  let mut child = match Command::new(exe).args(args).stdin(std::process::Stdio::null()).stdout(std::process::Stdio::null()).stderr(ef).spawn() {
+    Ok(c) => c, Err(_) => return (None, String::new(), 0.0, false) };
+  let t0 = std::time::Instant::now();
+  let mut last = t0;
+  let mut opens: Vec<String> = vec![];
+  let mut exited = false;
+  loop {
+    std::thread::sleep(std::time::Duration::from_millis(15));
+    let got = ww.drain();
+    if !got.is_empty() { last = std::time::Instant::now(); opens.extend(got); }
+    if let Ok(Some(_)) = child.try_wait() { exited = true; break; }
+    let el = t0.elapsed().as_secs_f64();
+    let quiet = last.elapsed().as_secs_f64();
+    let wchan = std::fs::read_to_string(format!("/proc/{}/wchan", child.id())).unwrap_or_default();
+    if wchan.contains("inotify") && quiet >= 0.03 { break; }
+    if el >= 0.25 && quiet >= 0.25 && proc_state(child.id()) == 'S' { break; }
+    if el >= 3.0 { break; }
+  }
+  let _ = child.kill();
+  let _ = child.wait();
+  opens.extend(ww.drain());
+  let secs = t0.elapsed().as_secs_f64();
+  (Some(opens), std::fs::read_to_string(errfile).unwrap_or_default(), secs, exited)
+}
+
+// first round of the auto mode's verbose output, in the format of parse_all_kbd (count = number of ' * "path": false' lines)
+fn parse_auto(stderr: &str) -> String {
+  let mut listed = vec![];
+  let mut state = 0;
+  let mut malformed = false;
+  let mut checked: i64 = -1;
+  for l in stderr.lines() {
+    if state == 0 && l.starts_with("Got the current list of keyboards:") { state = 1; continue; }
+    if state == 1 && l.starts_with("Checking which devices are already running:") { state = 2; checked = 0; continue; }
+    if state == 1 {
+      match l.strip_prefix(" * \"") {
+        Some(r) => match r.find('"') {
+          Some(q) => { let tail = &r[q + 1..]; if tail == "" || tail == " (excluded)" { listed.push((r[..q].to_string(), tail == " (excluded)")); } else { malformed = true; } },
+          None => malformed = true,
+        },
+        None => malformed = true,
+      }
+    }
+    if state == 2 {
+      if l.starts_with(" * \"") { checked += 1; }
+      if l.starts_with("Reaping finished devices") { break; }
+    }
+  }
+  if malformed || checked < 0 { return "-1 0".to_string(); }
+  let mut s = format!("{} {}", checked, listed.len());
+  for (p, x) in &listed { s += &format!(" {} {}", hx(p.as_bytes()), if *x { 1 } else { 0 }); }
+  s
+}
+
 // what the verbose output of the two selection paths says
 fn parse_all_kbd(stderr: &str) -> String {
-  // " * \"/dev/input/event2\" (excluded)" lines between the header and "Remapping"
+  // " * \"/dev/input/event2\" (excluded)" lines between the header and "Remapping".  The log is a secondary
+  // observation: "-1 0" (= not in the expected shape, or no list printed) unless the header is there, every line
+  // between it and the "Remapping N devices." line is a list line, and that line is there
   let mut listed = vec![];
   let mut in_list = false;
+  let mut header = false;
+  let mut malformed = false;
   let mut remapping: Option<usize> = None;
   for l in stderr.lines() {
-    if l.starts_with("Got the list of keyboards:") { in_list = true; continue; }
+    if l.starts_with("Got the list of keyboards:") { in_list = true; header = true; continue; }
     if let Some(r) = l.strip_prefix("Remapping ") { in_list = false; remapping = r.split(' ').next().and_then(|x| x.parse().ok()); continue; }
     if in_list {
-      if let Some(r) = l.strip_prefix(" * \"") {
-        if let Some(q) = r.find('"') { listed.push((r[..q].to_string(), r[q + 1..].contains("(excluded)"))); }
+      match l.strip_prefix(" * \"") {
+        Some(r) => match r.find('"') {
+          Some(q) => { let tail = &r[q + 1..]; if tail == "" || tail == " (excluded)" { listed.push((r[..q].to_string(), tail == " (excluded)")); } else { malformed = true; } },
+          None => malformed = true,
+        },
+        None => malformed = true,
       }
     }
   }
+  if !header || malformed || remapping.is_none() { return "-1 0".to_string(); }
   let mut s = format!("{} {}", remapping.map(|x| x as i64).unwrap_or(-1), listed.len());
   for (p, x) in &listed { s += &format!(" {} {}", hx(p.as_bytes()), if *x { 1 } else { 0 }); }
   s
@@ -870,16 +1004,20 @@ pub fn ns_main(args: &[String]) -> i32 {
     for e in &sc.excl { ex_args.push("--exclude".to_string()); ex_args.push(e.clone()); }
     let mut pa = vec!["listing-probe".to_string(), "all".to_string()];
     pa.extend(ex_args.iter().cloned());
-    let (_, _, err) = run_child(&me, &pa);
+    // every node is in place: from here on, an open of a node of /dev/input is the code under test's
+    let mut watch = OpenWatch::new("/dev/input");
+    let (_, _, err, opened) = run_child_watched(&me, &pa, &mut watch);
     let status = err.lines().filter(|l| l.starts_with("PROBE-RESULT")).last().unwrap_or("PROBE-RESULT none").to_string();
     writeln!(out, "SA {} {} {}", si, hx(status.as_bytes()), parse_all_kbd(&err)).unwrap();
+    writeln!(out, "SAO {} {}", si, opens_field(&opened)).unwrap();
     if !sc.args.is_empty() {
       let mut pd = vec!["listing-probe".to_string(), "devfile".to_string()];
       pd.extend(ex_args.iter().cloned());
       for d in &sc.args { pd.push("--dev".to_string()); pd.push(d.clone()); }
-      let (_, _, err) = run_child(&me, &pd);
+      let (_, _, err, opened) = run_child_watched(&me, &pd, &mut watch);
       let status = err.lines().filter(|l| l.starts_with("PROBE-RESULT")).last().unwrap_or("PROBE-RESULT none").to_string();
       writeln!(out, "SD {} {} {}", si, hx(status.as_bytes()), parse_dev_file(&err, &sc.args)).unwrap();
+      writeln!(out, "SDO {} {}", si, opens_field(&opened)).unwrap();
     }
     // (3) the real binary (built from /repo without the verification cfg)
     if let Some(rb) = &real_bin {
@@ -891,16 +1029,27 @@ pub fn ns_main(args: &[String]) -> i32 {
       writeln!(out, "{}", s).unwrap();
       let mut ra = vec!["remap".to_string(), "--default-layout".to_string(), "caps-for-movement".to_string(), "--all-keyboards".to_string(), "--verbose".to_string()];
       for e in &sc.excl { ra.push("--exclude".to_string()); ra.push(e.clone()); }
-      let (rc, _, err) = run_child(rb, &ra);
+      let (rc, _, err, opened) = run_child_watched(rb, &ra, &mut watch);
       writeln!(out, "RA {} {} {}", si, rc, parse_all_kbd(&err)).unwrap();
+      writeln!(out, "RAO {} {}", si, opens_field(&opened)).unwrap();
       if !sc.args.is_empty() {
         let mut rd = vec!["remap".to_string(), "--default-layout".to_string(), "caps-for-movement".to_string(), "--only-if-keyboard".to_string(), "--verbose".to_string()];
         for e in &sc.excl { rd.push("--exclude".to_string()); rd.push(e.clone()); }
         for d in &sc.args { rd.push("--dev-file".to_string()); rd.push(d.clone()); }
-        let (rc, _, err) = run_child(rb, &rd);
+        let (rc, _, err, opened) = run_child_watched(rb, &rd, &mut watch);
         writeln!(out, "RD {} {} {}", si, rc, parse_dev_file(&err, &sc.args)).unwrap();
+        writeln!(out, "RDO {} {}", si, opens_field(&opened)).unwrap();
+      }
+      if sc.opts.iter().any(|o| o == "auto") {
+        let mut ru = vec!["remap".to_string(), "--default-layout".to_string(), "caps-for-movement".to_string(), "--auto-all-keyboards".to_string(), "--verbose".to_string()];
+        for e in &sc.excl { ru.push("--exclude".to_string()); ru.push(e.clone()); }
+        let (opened, err, secs, exited) = run_auto_watched(rb, &ru, &format!("{}.auto.stderr", sp), &mut watch);
+        writeln!(out, "RU {} {} {}", si, if exited { 1 } else { 0 }, parse_auto(&err)).unwrap();
+        writeln!(out, "RUO {} {}", si, opens_field(&opened)).unwrap();
+        writeln!(out, "RUT {} {}", si, (secs * 1000.0) as u64).unwrap();
       }
     }
+    drop(watch);
     writeln!(out, "NSEND {}", si).unwrap();
     out.flush().unwrap();
     sh_ok("umount", &["/proc/bus/input/devices"]);
